@@ -26,6 +26,22 @@ type HOp struct {
 	TyObj    int    `json:"tyobj,omitempty"`
 	ValObj   int    `json:"valobj,omitempty"`
 	Callable int    `json:"callable,omitempty"`
+	// compile: Wrap > 0 compiles the expression inside a template that calls the host function
+	// nest (identity); while nest runs, callable NCallable (possibly the very one being
+	// evaluated) is invoked with value object NValObj - an invocation nested in another one
+	Wrap      int `json:"wrap,omitempty"`
+	NCallable int `json:"ncallable,omitempty"`
+	NValObj   int `json:"nvalobj,omitempty"`
+}
+
+var nestTemplates = []string{"", "nest(%s)", "{a: nest(0), b: %s}.b", "if(nest(true), %s, %s)", "nest(nest(%s))", "[%s, nest(%s)][1]"}
+
+func nestWrap(src string, k int) string {
+	tpl := nestTemplates[k%len(nestTemplates)]
+	if tpl == "" {
+		return src
+	}
+	return strings.ReplaceAll(tpl, "%s", "("+src+")")
 }
 
 type HistCase struct {
@@ -81,6 +97,12 @@ func genHistCase(t *rapid.T) *HistCase {
 			ValObj:   rapid.IntRange(0, 4).Draw(t, "valobj"),
 			Callable: rapid.IntRange(0, 7).Draw(t, "callable"),
 		})
+		if rapid.IntRange(0, 2).Draw(t, "nested") == 0 {
+			op := &c.Ops[len(c.Ops)-1]
+			op.Wrap = rapid.IntRange(1, len(nestTemplates)-1).Draw(t, "wrap")
+			op.NCallable = rapid.IntRange(0, 7).Draw(t, "ncallable")
+			op.NValObj = rapid.IntRange(0, 4).Draw(t, "nvalobj")
+		}
 	}
 	return c
 }
@@ -89,6 +111,7 @@ type compiled struct {
 	c    yae.Callable
 	expr int
 	be   string
+	wrap int
 }
 
 func checkHist(c *HistCase) *Outcome {
@@ -125,6 +148,18 @@ func checkHist(c *HistCase) *Outcome {
 	// ---- the objects that are deliberately reused
 	engines := []*yae.Expr{yae.NewExpr(), yae.NewExpr().UseClosureCompiler(), yae.NewExpr()}
 	engineName := []string{"vm#0", "closure#1", "vm#2"}
+	// nest :: forall a. a -> a, a host function that gives the harness control in the middle of an evaluation
+	var nestHook func()
+	for _, e := range engines {
+		a := types.TyVar("a")
+		e.RegisterFun(val.Fun(types.Fun("nest", []*types.Type{a}, a), func(args ...*val.Val) *val.Val {
+			if nestHook != nil {
+				nestHook()
+			}
+			return args[0]
+		}))
+	}
+	nestedDone := 0
 	var tyObjs []interface{}
 	var tyNames []string
 	rawTy := run.TypeEnv(c.Env)
@@ -207,7 +242,7 @@ func checkHist(c *HistCase) *Outcome {
 			e := engines[op.Engine%3]
 			var cl yae.Callable
 			var cerr error
-			p := run.Guard(func() { cl, cerr = e.Compile(srcs[op.Expr], tyObjs[ti]) })
+			p := run.Guard(func() { cl, cerr = e.Compile(nestWrap(srcs[op.Expr], op.Wrap), tyObjs[ti]) })
 			if p != nil || cerr != nil {
 				return bad("compiling expression %d on %s against %s (used %d times before) fails: err=%v panic=%v\n src: %s\n history:%s",
 					op.Expr, engineName[op.Engine%3], tyNames[ti], usedTy[ti], cerr, p, srcs[op.Expr], history(step))
@@ -216,7 +251,7 @@ func checkHist(c *HistCase) *Outcome {
 				reuse++
 			}
 			usedTy[ti]++
-			callables = append(callables, compiled{cl, op.Expr, engineName[op.Engine%3]})
+			callables = append(callables, compiled{cl, op.Expr, engineName[op.Engine%3], op.Wrap})
 		case "invoke":
 			if len(callables) == 0 {
 				continue
@@ -228,8 +263,46 @@ func checkHist(c *HistCase) *Outcome {
 			var v *val.Val
 			var err error
 			var p *run.Panic
-			out := run.CaptureStdout(func() { p = run.Guard(func() { v, err = cc.c(vo.obj) }) })
 			what := fmt.Sprintf("invoking the %s callable of expression %d with %s (used %d times before)", cc.be, cc.expr, vo.name, usedVal[vi])
+			var out string
+			if cc.wrap == 0 {
+				out = run.CaptureStdout(func() { p = run.Guard(func() { v, err = cc.c(vo.obj) }) })
+			} else {
+				// nested invocations: while nest runs inside this evaluation, another callable (or this
+				// one) is invoked to completion; both must have the outcome they have alone.
+				// Standard output is not compared here (the two evaluations' prints interleave).
+				depth := 0
+				var nestedBad *Outcome
+				nc := callables[op.NCallable%len(callables)]
+				nvo := valObjs[op.NValObj%len(valObjs)]
+				nr := expect(nc.expr, vals[nvo.tag], nvo.tag)
+				nestHook = func() {
+					depth++
+					defer func() { depth-- }()
+					if depth > 2 || nestedBad != nil {
+						return
+					}
+					var nv *val.Val
+					var nerr error
+					np := run.Guard(func() { nv, nerr = nc.c(nvo.obj) })
+					nestedDone++
+					nwhat := fmt.Sprintf("invoking the %s callable of expression %d with %s from inside the evaluation of (%s)", nc.be, nc.expr, nvo.name, what)
+					wantOut := ""
+					for _, l := range nr.RefOut {
+						wantOut += l + "\n"
+					}
+					nestedBad = checkOutcome(step, nwhat, nr, nv, nerr, np, wantOut)
+				}
+				p = run.Guard(func() { v, err = cc.c(vo.obj) })
+				nestHook = nil
+				if nestedBad != nil {
+					return nestedBad
+				}
+				for _, l := range r.RefOut {
+					out += l + "\n"
+				}
+				what += " (with a nested invocation)"
+			}
 			if o := checkOutcome(step, what, r, v, err, p, out); o != nil {
 				return o
 			}
@@ -295,6 +368,9 @@ func checkHist(c *HistCase) *Outcome {
 	}
 	if hostOK {
 		classes = append(classes, "host-objects")
+	}
+	if nestedDone > 0 {
+		classes = append(classes, "invocation-nested-in-an-evaluation")
 	}
 	return ok(reuse > 0 && (multiMap || len(results) > 1), classes...)
 }
@@ -370,7 +446,7 @@ var c13repeatOpt = gen.ProgOpt{Fuel: 4, Partial: true, Sugar: false, Maybe: true
 var c13repeat = Register(&Prop[ProgCase]{ID: "C13", Name: "repeat", Gen: genProgCase(c13repeatOpt, nil), Check: checkRepeat})
 
 func TestC13(t *testing.T) {
-	R.Rule = "histories of 3-25 operations over a pool of <= 4 expressions (results with multi-entry maps, objects, set operations, string(x), print), three engine instances (VM, closure, VM) and deliberately reused environment objects (one raw *types.Env, two raw *val.Env with different contents, host structs and maps): compile(expr, type object) on engine i; invoke(callable, value object); one-shot Eval; Debug; render an earlier result 16 times; oracle after every step: outcome = the reference evaluator on (expression, environment contents) alone, captured standard output = exactly the print lines, host values deep-equal to an identically built twin, renderings never vary, an environment object used once is accepted again; plus repeated fresh evaluation of single programs (6 x 2 back ends) with identical result text and output; plus one source text (13 templates over overloaded / polymorphic built-ins) compiled 2-5 times on ONE engine against environments that give its variables different types, each step compared with a fresh engine; non-trivial = an environment object reused after another operation and a result with a multi-entry map or >= 2 results"
+	R.Rule = "histories of 3-25 operations over a pool of <= 4 expressions (results with multi-entry maps, objects, set operations, string(x), print), three engine instances (VM, closure, VM) and deliberately reused environment objects (one raw *types.Env, two raw *val.Env with different contents, host structs and maps): compile(expr, type object) on engine i; invoke(callable, value object); one-shot Eval; Debug; render an earlier result 16 times; one compile in three wraps the expression in a template calling the identity host function nest, and while nest runs inside an invocation another callable - possibly the very one being evaluated - is invoked to completion (an invocation nested in an evaluation, depth <= 2); oracle after every step: outcome = the reference evaluator on (expression, environment contents) alone, captured standard output = exactly the print lines, host values deep-equal to an identically built twin, renderings never vary, an environment object used once is accepted again; plus repeated fresh evaluation of single programs (6 x 2 back ends) with identical result text and output; plus one source text (13 templates over overloaded / polymorphic built-ins) compiled 2-5 times on ONE engine against environments that give its variables different types, each step compared with a fresh engine; non-trivial = an environment object reused after another operation and a result with a multi-entry map or >= 2 results"
 	R.Assume = []string{"ref.Eval and the characterised rendering of print"}
 	reportKnown(t, "C13")
 	runRegress(t, "C13")
